@@ -11,7 +11,7 @@ package downloader
 // (the scheduler's Process is under its own contract in /repo/trie/verif_contracts_c19.go; here only "what is passed" matters)
 //@ func (*trieSync).processNodeData props C19
 //@ requires [nonnil] s != nil && s.keccak != nil && s.sched != nil
-//@ modifies all, c19Writes, c19AbsArr, c19AbsOff, c19AbsLen, c19DecodeOK, c19Deps0, c19Data, c19Kids, c19Known, c19ParentDeps0
+//@ modifies all, c19Writes, c19AbsArr, c19AbsOff, c19AbsLen, c19DecodeOK, c19Deps0, c19Data, c19Kids, c19Known, c19ParentDeps0, c19Running, c19Built
 //@ assert before call (*trie.Sync).Process: [one-item-with-the-blob] len(a1) == 1 && a1[0].Data == blob && res.Data == blob
 //@ assert before call (*trie.Sync).Process: [hash-is-keccak-of-blob] forall i: int :: 0 <= i && i < 32 ==> a1[0].Hash[i] == c19Keccak(old(elems(blob)), off(blob), len(blob))[i]
 //@ assert before call (*trie.Sync).Process: [hashed-exactly-the-blob] c19Writes == 1 && c19AbsArr == old(elems(blob)) && c19AbsOff == off(blob) && c19AbsLen == len(blob)
